@@ -263,6 +263,21 @@ func inter16(a, b []uint16) []uint16 {
 // Predict computes the admissible outcome set of a configuration pair.
 func Predict(cc, sc world.Cfg) Prediction {
 	c, s := PolicyOf(cc, true), PolicyOf(sc, false)
+	// A server with several certificates presents the one the ClientHello's server name selects (first
+	// match by name, else the first one); a GetCertificate callback is asked whenever a name is given.
+	// "Fits the server's key type" is judged against the key of that certificate.
+	if sel := selectedCred(cc, sc); sel != "" {
+		delete(s.KeyAuth, authECDSA)
+		delete(s.KeyAuth, authRSA)
+		switch sel {
+		case "rsa", "rsaalt":
+			s.KeyAuth[authRSA], s.KeyFamily = true, "rsa"
+		case "ed25519":
+			s.KeyAuth[authECDSA], s.KeyFamily = true, "ed25519"
+		default:
+			s.KeyAuth[authECDSA], s.KeyFamily = true, "ecdsa"
+		}
+	}
 	pr := Prediction{C: c, S: s}
 	dims := map[string]bool{}
 	fail := func(d string) { dims[d] = true }
@@ -364,6 +379,30 @@ func Predict(cc, sc world.Cfg) Prediction {
 		}
 	}
 	return finish()
+}
+
+var credNames = map[string]string{"ecdsa": "server.test", "ecdsa2": "server.test", "ecdsa384": "server.test", "rsa": "server.test", "ed25519": "server.test",
+	"rsaalt": "rsa.server.test", "ecalt": "ec.server.test"}
+
+// selectedCred returns the credential a multi-certificate / GetCertificate server presents to this client
+// ("" when the server has the single credential of Cfg.Cred).
+func selectedCred(cc, sc world.Cfg) string {
+	sni := cc.ServerName
+	if sni == "" {
+		sni = "server.test"
+	}
+	if sc.GetCertSNI != "" {
+		return sc.GetCertSNI
+	}
+	if len(sc.MultiCert) == 0 {
+		return ""
+	}
+	for _, n := range sc.MultiCert {
+		if credNames[n] == sni {
+			return n
+		}
+	}
+	return sc.MultiCert[0]
 }
 
 func versionString(v int) string {
